@@ -9,6 +9,8 @@ Case kinds (every case is JSON; Python values outside JSON travel as {"__py__": 
   flat   : one column of any column class -> to_flatcolumn()  (the eleven attributes)
                                                             model: Persist.toFlat
   flat2  : flatten, assign attributes, flatten again (the second flat column shows the current attributes)
+           seventh pass: flat / flat2 also carry statistics, counts and defaults of other kinds ({"__py__": "np" | "pdts" | "pdtd" |
+           "tuple" | "int"}: numpy scalars, pandas objects, tuples, big ints); these stay outside the model (oracle only)
   snap   : sequences on one schema: to_dict -> from_dict -> modify the schema and the first restored schema ->
            the dictionary is unchanged (to_dict returns a snapshot) and loading it again restores the schema as it
            was written; modifying a dictionary to_dict returned leaves the schema alone; to_dict of the restored
@@ -79,6 +81,8 @@ def to_py(v):
                 return bytes.fromhex(t)
             if k == "float":
                 return float(t)
+            if k in ("np", "pdts", "pdtd", "tuple", "int"):
+                return _other_kind(k, t)
             raise InfraError("bad value spec %r" % (v,))
         return {k: to_py(x) for k, x in v.items()}
     return v
@@ -88,8 +92,54 @@ def py(kind, text):
     return {"__py__": kind, "v": text}
 
 
+def _other_kind(k, t):
+    """seventh pass: values of kinds the per-type pools do not hold - numpy scalars ("<dtype>|<text>"), pandas Timestamp /
+    Timedelta, tuples, integers beyond JSON"""
+    import numpy
+
+    if k == "tuple":
+        return tuple(to_py(x) for x in t)
+    if k == "int":
+        return int(t)
+    if k == "pdts":
+        import pandas
+
+        text, _, tz = t.partition("|")
+        return pandas.Timestamp(text, tz=tz or None)
+    if k == "pdtd":
+        import pandas
+
+        return pandas.NaT if t == "NaT" else pandas.Timedelta(int(t), unit="ns")
+    dt, _, text = t.partition("|")
+    if dt.startswith("datetime64"):
+        return numpy.array(text, dtype=dt)[()]
+    if dt.startswith("timedelta64"):
+        return numpy.array("NaT" if text == "NaT" else int(text), dtype=dt)[()]
+    if dt == "bool_":
+        return numpy.bool_(text == "True")
+    if dt == "str_":
+        return numpy.str_(text)
+    if dt == "bytes_":
+        return numpy.bytes_(bytes.fromhex(text))
+    ty = numpy.dtype(dt).type
+    if dt.startswith(("int", "uint")):
+        return ty(int(text))
+    if dt.startswith("complex"):
+        return ty(complex(text))
+    with warnings.catch_warnings():
+        warnings.simplefilter("ignore")
+        return ty(float(text))
+
+
+_PLAIN_CLASSES = (type(None), bool, int, float, str, bytes, list, tuple, dict, datetime.datetime, datetime.date, datetime.time,
+                  datetime.timedelta, decimal.Decimal)
+
+
 def enc_val(v):
     """Python value -> wire value (Model/PersistPy.lean's encoding)"""
+    if type(v) not in _PLAIN_CLASSES:
+        # a subclass (numpy.float64 is a float, numpy.str_ a str, pandas.Timestamp a datetime) is not the value the model knows
+        return {"__t": "other:" + type(v).__name__, "v": repr(v)[:80]}
     if v is None or isinstance(v, (bool, int, float, str, bytes)):
         return v
     if isinstance(v, (list, tuple)):
@@ -121,6 +171,22 @@ def same_value(a, b):
         return False
     if isinstance(a, float):
         return repr(a) == repr(b)
+    mod = type(a).__module__ or ""
+    if mod.startswith("numpy"):
+        import numpy
+
+        if isinstance(a, numpy.generic):  # same dtype (for datetime64 / timedelta64: same unit) and same bits: NaT and NaN equal themselves
+            return a.dtype == b.dtype and a.tobytes() == b.tobytes()
+    if mod.startswith("pandas"):
+        if a is b:  # pandas.NaT
+            return True
+        try:
+            return bool(a == b) and getattr(a, "value", None) == getattr(b, "value", None) and str(getattr(a, "tz", None)) == str(getattr(b, "tz", None)) \
+                and getattr(a, "unit", None) == getattr(b, "unit", None)
+        except Exception:
+            return False
+    if isinstance(a, decimal.Decimal) and a.is_nan():
+        return a is b or (b.is_nan() and str(a) == str(b))
     if isinstance(a, (list, tuple)):
         return len(a) == len(b) and all(same_value(x, y) for x, y in zip(a, b))
     if isinstance(a, dict):
@@ -168,7 +234,7 @@ def kwargs_of(spec):
                 kw[k] = S.ColumnDisposition[v[1]]
             else:
                 kw[k] = v[1]
-        elif k in ("default", "highest_value", "lowest_value"):
+        elif k in ("default", "highest_value", "lowest_value") or (isinstance(v, dict) and "__py__" in v):
             kw[k] = to_py(v)
         else:
             kw[k] = copy.deepcopy(v)  # the column must not share its lists with the case
@@ -269,7 +335,7 @@ def raw_wire(spec, identity_seen):
                 out[k] = [v[0], v[1]]
         elif k == "disposition":
             out[k] = None if v is None else [v[0], v[1]]
-        elif k in ("default", "highest_value", "lowest_value"):
+        elif k in ("default", "highest_value", "lowest_value") or (isinstance(v, dict) and "__py__" in v):
             out[k] = enc_val(to_py(v))
         else:
             out[k] = v
@@ -435,6 +501,28 @@ def _has_nan(c):
     return any(isinstance(getattr(c, a), float) and getattr(c, a) != getattr(c, a) for a in ("default", "highest_value", "lowest_value"))
 
 
+def _cls(v):
+    return type(v).__module__ + "." + type(v).__name__
+
+
+def _how(x, y):
+    """'' when the flat column's value is not even == the column's; otherwise the weaker change is named: the statement says the
+    flat column *keeps* the value, and a value of another class is another value to every reader that dispatches on the class
+    (to_json, the casts, arrow conversion) - the two are reported as separate clauses so the stronger one is always shown"""
+    try:
+        with warnings.catch_warnings():
+            warnings.simplefilter("ignore")
+            eq = (x == y)
+            eq = bool(eq) if not hasattr(eq, "all") else bool(eq.all())
+            if not eq and bool(x != x) and bool(y != y):
+                eq = True  # NaN for NaN, NaT for NaT
+    except Exception:
+        eq = False
+    if eq and type(x) is not type(y):
+        return " (to an equal value of another class)"
+    return ""
+
+
 def run_flat(case):
     S, _ = _orso()
     c = construct(case["col"])
@@ -450,11 +538,13 @@ def run_flat(case):
         fails.append(("flat: to_flatcolumn raised %s" % cls, {"op": "flat", "raised": cls, "message": str(e)[:200]}))
         return fails, ["err", "ValueError" if isinstance(e, ValueError) else cls], line, "flat"
     for attr, x, y in attr_diffs(c, f, FLAT_LISTED):
-        fails.append(("flat: flattening changes %s" % attr, {"op": "flat", "attr": attr, "orig": show(x), "got": show(y)}))
+        fails.append(("flat: flattening changes %s%s" % (attr, _how(x, y)), {"op": "flat", "attr": attr, "orig": show(x), "got": show(y),
+                                                                             "orig_class": _cls(x), "got_class": _cls(y)}))
     return fails, ["ok", enc_col(f)], line, "flat"
 
 
 MUTABLE = ["nullable", "aliases", "description", "default", "lowest_value", "highest_value", "null_count"]
+OTHER_KIND_COUNTS = ("null_count", "precision", "scale")  # numeric attributes flattening hands over; a profiler's counts are numpy integers
 
 
 def run_flat2(case):
@@ -469,9 +559,16 @@ def run_flat2(case):
             warnings.simplefilter("ignore")
             f1 = c.to_flatcolumn()
             for attr, x, y in attr_diffs(c, f1, FLAT_LISTED):
-                fails.append(("flat: flattening changes %s" % attr, {"op": "flat", "attr": attr, "orig": show(x), "got": show(y)}))
+                fails.append(("flat: flattening changes %s%s" % (attr, _how(x, y)), {"op": "flat", "attr": attr, "orig": show(x), "got": show(y),
+                                                                                     "orig_class": _cls(x), "got_class": _cls(y)}))
             for k in case["then"]:
-                setattr(c, k, getattr(donor, k))
+                if k in ("lowest_value", "highest_value", "null_count"):
+                    # a statistic is recorded on the column as the profiler hands it over: the value itself, not what a
+                    # constructor call would have made of it (seventh pass: a constructor that rewrites numpy statistics)
+                    v = case["then"][k]
+                    setattr(c, k, to_py(v) if k != "null_count" or isinstance(v, dict) else v)
+                else:
+                    setattr(c, k, getattr(donor, k))
             enc = enc_col(c)
             line = None if has_other(enc) else "C16 flat " + wire.line(enc, "fresh")
             f2 = c.to_flatcolumn()
@@ -480,8 +577,8 @@ def run_flat2(case):
         fails.append(("flat: to_flatcolumn raised %s" % cls, {"op": "flat", "raised": cls, "message": str(e)[:200]}))
         return fails, ["err", "ValueError" if isinstance(e, ValueError) else cls], None, "flat"
     for attr, x, y in attr_diffs(c, f2, FLAT_LISTED):
-        fails.append(("flat: flattening an updated column again changes %s" % attr,
-                      {"op": "flat2", "attr": attr, "orig": show(x), "got": show(y)}))
+        fails.append(("flat: flattening an updated column again changes %s%s" % (attr, _how(x, y)),
+                      {"op": "flat2", "attr": attr, "orig": show(x), "got": show(y), "orig_class": _cls(x), "got_class": _cls(y)}))
     return fails, ["ok", enc_col(f2)], line, "flat"
 
 
@@ -1072,7 +1169,10 @@ def valid_case(c):
                     return False
             for k in ("length", "precision", "scale", "null_count"):
                 if k in sp and sp[k] is not None and not (isinstance(sp[k], int) and not isinstance(sp[k], bool) and sp[k] >= 0):
-                    return False
+                    if not (c["kind"] in ("flat", "flat2") and k in OTHER_KIND_COUNTS and isinstance(sp[k], dict)
+                            and sp[k].get("__py__") == "np" and str(sp[k].get("v", "")).startswith(("int", "uint"))
+                            and to_py(sp[k]) >= 0):
+                        return False
             if "nullable" in sp and not isinstance(sp["nullable"], bool):
                 return False
             if "description" in sp and not (sp["description"] is None or isinstance(sp["description"], str)):
@@ -1619,12 +1719,145 @@ def random_case(ctx, forms):
     if r < 0.74:
         return {"kind": "json", "col": sp}
     sp["cls"] = rng.choice(COLUMN_CLASSES)
+    if rng.random() < 0.35:  # seventh pass: a value of another kind among the attributes
+        attr, v = random_other_kind(rng, sp)
+        if r < 0.85:
+            return {"kind": "flat", "col": dict(sp, **{attr: v})}
+        return {"kind": "flat2", "col": sp, "then": {attr: v}}
     if r < 0.85:
         return {"kind": "flat", "col": sp}
     sp2 = random_column(rng, sp["name"], [(sp.get("type", "absent"), _base_of(sp.get("type", "absent"), forms))])
     then = {k: sp2[k] for k in MUTABLE if k in sp2 and sp2[k] != sp.get(k)}
     return {"kind": "flat2", "col": sp, "then": then} if then else {"kind": "flat", "col": sp}
 
+
+
+# --------------------------------------------------------------------------- seventh pass: attribute values of other kinds
+
+
+def np_(dtype, text):
+    return py("np", "%s|%s" % (dtype, text))
+
+
+DT_UNITS = ["Y", "M", "W", "D", "h", "m", "s", "ms", "us", "ns", "ps", "fs", "as"]
+DT_TEXT = {"Y": "2024", "M": "2024-03", "W": "2024-03-07", "D": "2024-03-05", "h": "2024-03-05T10", "m": "2024-03-05T10:20",
+           "s": "2024-03-05T10:20:30", "ms": "2024-03-05T10:20:30.123", "us": "2024-03-05T10:20:30.123456",
+           "ns": "2024-03-05T10:20:30.123456789", "ps": "1970-01-02T00:00:00.123456789012", "fs": "1970-01-01T00:00:01.123456789012345",
+           "as": "1970-01-01T00:00:01.123456789012345678"}
+
+
+def other_values():
+    """value specs of the kinds a profiler, numpy, arrow or pandas hand over (and a few more): [(label, spec)]"""
+    out = []
+    for dt, texts in (("int8", ["-128", "0", "7"]), ("int16", ["300"]), ("int32", ["-70000"]), ("int64", ["9223372036854775807", "0", "3"]),
+                      ("uint8", ["255"]), ("uint16", ["65535"]), ("uint32", ["4000000000"]), ("uint64", ["18446744073709551615", "0"]),
+                      ("float16", ["0.1", "nan", "inf"]), ("float32", ["0.1", "nan", "-0.0", "16777217"]),
+                      ("float64", ["2.5", "nan", "-inf", "-0.0"]), ("longdouble", ["0.1"]), ("complex128", ["(1+2j)"]),
+                      ("bool_", ["True", "False"]), ("str_", ["z\u00e9", ""]), ("bytes_", ["00ff", ""])):
+        for t in texts:
+            out.append(("np:" + dt, np_(dt, t)))
+    for u in DT_UNITS:
+        out.append(("np:datetime64[%s]" % u, np_("datetime64[%s]" % u, DT_TEXT[u])))
+        out.append(("np:timedelta64[%s]" % u, np_("timedelta64[%s]" % u, "90061")))
+    out.append(("np:datetime64:before-epoch", np_("datetime64[ns]", "1969-12-31T23:59:59.999999999")))
+    out.append(("np:datetime64:year-beyond-datetime", np_("datetime64[us]", "12000-01-01T00:00:00")))
+    out.append(("np:datetime64:epoch", np_("datetime64[ns]", "1970-01-01T00:00:00")))
+    for u in ("D", "us", "ns", "as"):
+        out.append(("np:NaT", np_("datetime64[%s]" % u, "NaT")))
+        out.append(("np:NaT", np_("timedelta64[%s]" % u, "NaT")))
+    out.append(("np:timedelta64:zero", np_("timedelta64[ns]", "0")))
+    out.append(("pandas:Timestamp", py("pdts", "2024-03-05T10:20:30.123456789")))
+    out.append(("pandas:Timestamp", py("pdts", "2024-03-05T10:20:30")))
+    out.append(("pandas:Timestamp:tz", py("pdts", "2024-03-05T10:20:30.000000001|Europe/London")))
+    out.append(("pandas:Timedelta", py("pdtd", "90061000000001")))
+    out.append(("pandas:NaT", py("pdtd", "NaT")))
+    for k, t in (("Decimal", "1E+30"), ("Decimal", "NaN"), ("Decimal", "-Infinity"), ("Decimal", "0.10"), ("date", "0001-01-01"),
+                 ("date", "9999-12-31"), ("time", "23:59:59.999999"), ("time", "10:20:30+02:00"),
+                 ("datetime", "2024-03-05T10:20:30.123456+05:30"), ("datetime", "9999-12-31T23:59:59.999999"),
+                 ("timedelta", "-1"), ("float", "nan"), ("float", "-inf"), ("float", "-0.0"), ("int", str(-(2**200))),
+                 ("int", str(2**64)), ("bytes", "00"), ("int", "1704067200123456789")):
+        out.append((k, py(k, t)))
+    out.append(("nested", [np_("int64", "1"), [np_("datetime64[ns]", DT_TEXT["ns"])], {"k": np_("float32", "0.1")}]))
+    out.append(("nested", py("tuple", [np_("datetime64[ns]", DT_TEXT["ns"]), py("Decimal", "1.0"), None])))
+    out.append(("nested", {"low": np_("datetime64[ns]", DT_TEXT["ns"]), "n": [py("float", "nan"), py("tuple", [])]}))
+    out.append(("nested", py("tuple", [])))
+    return out
+
+
+OTHER_TYPES = ["absent", ["member", "TIMESTAMP"], ["member", "INTEGER"], ["member", "VARCHAR"], ["member", "DOUBLE"], ["member", "DATE"],
+               ["member", "INTERVAL"], ["text", "DECIMAL(10,2)"], ["member", "BLOB"], ["member", "BOOLEAN"], ["member", "TIME"],
+               ["text", "ARRAY<INTEGER>"], ["member", "STRUCT"]]
+
+
+def _other_spec(name, cls, ty, attr, v):
+    sp = {"name": name, "identity": "id-" + name, "cls": cls}
+    if ty != "absent":
+        sp["type"] = ty
+    return sp, {attr: v}
+
+
+def other_kind_cases(ctx):
+    """every value of `other_values` as lowest_value / highest_value (any column type: statistics are not cast) and as the default
+    (every column type whose cast accepts it: what the constructor made of it must flatten to itself), numpy integers as null_count /
+    precision / scale - through every column class, given to the constructor (`flat`) and assigned afterwards (`flat2`)."""
+    thorough = ctx.tier == "thorough"
+    vals = other_values()
+    n = 0
+    for vi, (label, v) in enumerate(vals):
+        for ci, cls in enumerate(COLUMN_CLASSES):
+            for ai, attr in enumerate(("lowest_value", "highest_value")):
+                if not thorough and cls != "FlatColumn" and (vi + ci + ai) % 2:
+                    continue
+                ty = OTHER_TYPES[(vi + ci + ai) % len(OTHER_TYPES)]
+                sp, then = _other_spec("o", cls, ty, attr, v)
+                n += 1
+                if n % 2:
+                    yield label, {"kind": "flat", "col": dict(sp, **then)}
+                else:
+                    yield label, {"kind": "flat2", "col": dict(sp, highest_value=7), "then": then}
+        # both bounds and the count of one kind, as a profiler leaves them
+        for ci, cls in enumerate(COLUMN_CLASSES):
+            sp, _ = _other_spec("o", cls, OTHER_TYPES[(vi + ci) % len(OTHER_TYPES)], "lowest_value", v)
+            sp.update(highest_value=v, null_count=np_("int64", "3"), description="seen", aliases=["s"])
+            yield label, {"kind": "flat", "col": sp}
+        # as the default: through the cast of every column type that takes it
+        for ti, ty in enumerate(OTHER_TYPES):
+            cls = COLUMN_CLASSES[(vi + ti) % len(COLUMN_CLASSES)] if thorough or ti % 2 else "FlatColumn"
+            sp, then = _other_spec("o", cls, ty, "default", v)
+            yield label, {"kind": "flat", "col": dict(sp, **then)}
+    for dt in ("int8", "int16", "int32", "int64", "uint8", "uint16", "uint32", "uint64"):
+        for cls in COLUMN_CLASSES:
+            for attr in OTHER_KIND_COUNTS:
+                for t in ("0", "3"):
+                    ty = ["member", "DECIMAL"] if attr != "null_count" else ["member", "INTEGER"]
+                    sp, then = _other_spec("o", cls, ty, attr, np_(dt, t))
+                    yield "np:" + dt + ":count", {"kind": "flat", "col": dict(sp, **then)}
+                    if attr == "null_count":
+                        yield "np:" + dt + ":count", {"kind": "flat2", "col": sp, "then": then}
+
+
+def checked_other_kind_cases(ctx):
+    for label, c in other_kind_cases(ctx):
+        try:
+            _construct_all(c)
+        except Exception as e:  # the cast of this column type refuses the value as a default: not a column
+            ctx.hit("other-kind:skipped:default-refused-by-cast:" + type(e).__name__)
+            continue
+        attrs = [k for k in list(c["col"]) + list(c.get("then", {})) if k in ("default", "lowest_value", "highest_value") + OTHER_KIND_COUNTS
+                 and isinstance((c.get("then") or {}).get(k, c["col"].get(k)), (dict, list))]
+        ctx.hit("other-kind:" + label)
+        for a in set(attrs):
+            ctx.hit("other-kind-as:" + a)
+        yield c
+
+
+def random_other_kind(rng, sp):
+    """a random column with one of its statistics / its default / its count replaced by a value of another kind"""
+    label, v = rng.choice(other_values())
+    attr = rng.choice(["lowest_value", "highest_value", "lowest_value", "highest_value", "default", "null_count"])
+    if attr == "null_count":
+        v = np_(rng.choice(["int8", "int32", "int64", "uint16", "uint64"]), str(rng.choice([0, 1, 3, 100])))
+    return attr, v
 
 # --------------------------------------------------------------------------- sessions: generators
 
@@ -1831,7 +2064,10 @@ def run(ctx):
              "distinct by canonical JSON of the case")
     ctx.note("assumptions", [
         "columns carry no expectations (the statement does not list them; the suite's own persistence test strips them)",
-        "defaults and statistics are values of the column type's natural class (C07's casts are identities on them)",
+        "defaults and statistics are values of the column type's natural class (C07's casts are identities on them); flattening "
+        "additionally sees statistics, counts and defaults of other kinds (numpy scalars of every dtype and datetime64 / timedelta64 unit, "
+        "NaT, pandas Timestamp / Timedelta, Decimal NaN / infinities, extreme and aware temporals, integers beyond 64 bits, nested "
+        "containers), judged by same class and equality (numpy scalars by dtype and bytes); a default is what the constructor's cast made of it",
         "JSON: defaults are compared after the type's cast of their JSON rendering; non-finite floats, bytes, Decimal, timedelta, "
         "integers beyond 64 bits and temporal statistics are not carried by JSON (open findings K01, K02)",
         "sequences (snap, json2): the schema / column is modified in place and by assignment with values of a donor column built by the "
@@ -1844,6 +2080,7 @@ def run(ctx):
     ])
     check_tables(ctx)
     total = _run_batched(ctx, exhaustive_cases(ctx))
+    total += _run_batched(ctx, checked_other_kind_cases(ctx))
     ctx.exhaustive = False
     ctx.note("exhaustive_scope", "every type-name form (%d: absent, each base type as member / name / lower-case name, DECIMAL(p,s), VARCHAR[n], "
              "BLOB[n], ARRAY<T> for every scalar T, LIST/NUMERIC/BSON) x subsets of {aliases, default, description, disposition, statistics, "
